@@ -444,6 +444,20 @@ def degenerate_cases(tier, rng):
     g = path(3)
     g["edges"][0][2]["order"] = 0
     add("order-zero", g)                                   # a falsy edge label
+    # attributes absent on some nodes / edges only: the default label (charge 0, everything else "*", bond order 1.0), the same
+    # for the exact analysis and for the estimate
+    def bare(i, **kw):
+        return [i, dict(kw)]
+    add("absent-charge", {"nodes": [bare(1, element="C", charge=0), bare(2, element="C", charge=0), bare(3, element="C")],
+                          "edges": [[1, 2, {"order": 1}], [2, 3, {"order": 1}]]})
+    add("absent-hcount-aromatic", {"nodes": [bare(1, element="C", charge=0, hcount=1, aromatic=False), bare(2, element="C", charge=0),
+                                             bare(3, element="C", charge=0, hcount=1), bare(4, element="C", charge=0, aromatic=False)],
+                                   "edges": [[1, 2, {"order": 1}], [2, 3, {"order": 1}], [2, 4, {"order": 1}]]})
+    add("absent-order", {"nodes": [bare(i, element="C", charge=0) for i in (1, 2, 3, 4)],
+                         "edges": [[1, 2, {"order": 1}], [2, 3, {"order": 2}], [3, 4, {}]]})
+    add("absent-element", {"nodes": [bare(1, charge=0), bare(2, element="C", charge=0), bare(3, charge=0), bare(4, element="*", charge=0)],
+                           "edges": [[1, 2, {"order": 1}], [2, 3, {"order": 1}], [2, 4, {"order": 1}]]})
+    add("no-attributes-at-all", {"nodes": [bare(i) for i in (0, 1, 2, 3)], "edges": [[0, 1, {}], [1, 2, {}], [2, 3, {}]]})
     # ids with two and three digits (string sorting of ids differs from numeric), sizes >= 10
     add("ids-9-10-100", GG.relabel(path(3), {1: 100, 2: 9, 3: 10}))
     add("cycle12-ids-x11", GG.relabel(GG.cycle(12), {i: 11 * i for i in range(1, 13)}))
